@@ -61,6 +61,7 @@ var c15Bodies = []struct{ name, text string }{
 	{"json object", `{"j":"json-j","x":"json-x","l":["jl1","jl2"],"m":["jm1"]}`},
 	{"json {}", `{}`},
 	{"json object with non-ASCII values", `{"j":"jé","x":"東京"}`},
+	{"json object holding a number beyond float64", `{"j":"json-j","x":"json-x","n":1e999}`},
 	{"form with non-ASCII values", "f=%C3%A9&x=é"},
 	{"json object followed by a newline", "{\"j\":\"json-j\",\"x\":\"json-x\"}\n"},
 	{"json object between blanks and CRLF", " \r\n\t{\"j\":\"json-j\",\"x\":\"json-x\"} \r\n"},
@@ -129,7 +130,7 @@ func c15Scenario(x *mc.X) *mc.Outcome {
 	}
 	// what the process did before: nothing, or an execution in which a catching field swallowed a failure of a test
 	// that carries its own message (the library recycles the objects of finished executions)
-	undecodable := map[string]bool{"json truncated": true, "json array": true, "json null": true, "json number": true, "json string": true, "two json documents": true, "form malformed escape": true, "json long, syntax error early": true, "empty": true}
+	undecodable := map[string]bool{"json truncated": true, "json array": true, "json null": true, "json number": true, "json string": true, "two json documents": true, "form malformed escape": true, "json long, syntax error early": true, "empty": true, "json object holding a number beyond float64": true}
 	if undecodable[body.name] && middleware == 0 && x.Bool("an earlier execution swallowed a nested failure") {
 		var prev struct{ Nick string }
 		z.Struct(z.Schema{"nick": z.String().Min(5, z.Message("nick too short")).Catch("anon")}).Parse(map[string]any{"nick": "ab"}, &prev)
